@@ -305,6 +305,11 @@ func (ex *Exec) checkPost(fr *Frame, ret *ssa.Return, st *State, pc *Term, vals 
 		if cl.Kind != "ensures" || cl.Expr == nil {
 			continue
 		}
+		if hasStr(cl.Tags, "ghost") {
+			// definitional update of ghost state: ghost variables are only written by contracts
+			ex.assumes["ghost update declared by the contract of "+ex.P.relName(fr.fn)+": "+cl.Src] = true
+			continue
+		}
 		if hasStr(cl.Tags, "assumed") {
 			// assumed at call sites, not proved from the body: reported as an assumption
 			ex.assumes["ASSUMED postcondition of "+ex.P.relName(fr.fn)+" (not proved from its body): "+cl.Src] = true
